@@ -100,13 +100,31 @@ theorem putEntry_facts {t : Bytes} {now : Stamp} {fi : FImg} {e1 entry1 : Bytes}
 
 /-! ## what the file image must satisfy; the chunks as the specification sees them -/
 
-/-- a file image that `put` can store faithfully: no chunk `0 ..< end` is missing, none is longer than a cluster, and the
-length is not larger than what the chunks hold (a2kit checks the first only after having taken clusters, and the others
-not at all — see `design/FsFat.md`) -/
+/-- what `put`'s test of the file image (`FImg.storable`, with the metadata vectors long enough) gives: no chunk `0 ..< end`
+is missing, none is longer than a cluster, and the length is not larger than what the chunks hold -/
 structure PutArg (fi : FImg) : Prop where
   noHole : ∀ k, k < fi.end → (fi.chunks.lookup k).isSome = true
   fits : ∀ k, k < fi.end → (chunkAt fi.chunks k).length ≤ fi.chunkLen
   eofFits : le32 fi.eof 0 ≤ fi.end * fi.chunkLen
+
+theorem putArg_of_storable {fi : FImg} (hst : fi.storable = true) (hm : MetaOk fi) : PutArg fi := by
+  unfold FImg.storable at hst
+  simp only [Bool.and_eq_true, List.all_eq_true, List.mem_range, Bool.or_eq_true, decide_eq_true_eq] at hst
+  refine { noHole := ?_, fits := ?_, eofFits := ?_ }
+  · intro k hk
+    have := hst.1 k hk
+    cases hl : fi.chunks.lookup k with
+    | none => rw [hl] at this; cases this
+    | some _ => rfl
+  · intro k hk
+    have := hst.1 k hk
+    unfold chunkAt
+    cases hl : fi.chunks.lookup k with
+    | none => rw [hl] at this; cases this
+    | some data => rw [hl] at this; simpa using this
+  · rcases hst.2 with h4 | h4
+    · unfold MetaOk at hm; omega
+    · exact h4
 
 /-- the chunks of the file image in ascending order -/
 def chunksOf (fi : FImg) : List (Nat × Bytes) := (List.range fi.end).map (fun k => (k, chunkAt fi.chunks k))
@@ -177,7 +195,7 @@ theorem act_skip_slot {E1 E2 : List Bytes} {e0 : Bytes} (hl : e0.length = 32) (h
 re-established and the reading gains exactly one record: a file under `absPath p` that owns clusters which were free,
 holds the chunks of the file image and has its length -/
 theorem put_step_core {d : Disk} (inv : Inv d) {fi : FImg} {now : Stamp} (a : RootArg fi.fullPath) (hs : StampOk now)
-    (pa : PutArg fi) {res : R Nat} {d' : Disk} (h : runFlush (put fi now) d = (res, d')) :
+    {res : R Nat} {d' : Disk} (h : runFlush (put fi now) d = (res, d')) :
     (∃ er, res = .error er ∧ d' = d) ∨
     ((∃ n, res = .ok n) ∧ Inv d' ∧ ∃ F1 F2 rec free', (volOf d).files = F1 ++ F2 ∧ rec.path = absPath fi.fullPath ∧
       rec.isDir = false ∧ rec.owned.Nodup ∧ (∀ x ∈ rec.owned, x ∈ (volOf d).freeUnits) ∧ free'.Nodup ∧
@@ -188,13 +206,14 @@ theorem put_step_core {d : Disk} (inv : Inv d) {fi : FImg} {now : Stamp} (a : Ro
   have g := inv.geo
   obtain ⟨hread, hwf, hnl⟩ := inv_reads_well_formed inv
   unfold runFlush at h
-  rcases put_run g c a hs pa.noHole with ⟨er, hrun⟩ |
-    ⟨B, X, E1, e0, E2, files, e1, entry1, d1, f1, cl, np, hE, hE1, he0, hb, hl, hacc, hm, hcl, hmeta, hl1, o, hrun⟩
+  rcases put_run g c a hs with ⟨er, hrun⟩ |
+    ⟨B, X, E1, e0, E2, files, e1, entry1, d1, f1, cl, np, hE, hE1, he0, hb, hl, hacc, hsto, hm, hcl, hmeta, hl1, o, hrun⟩
   · rw [hrun] at h
     simp only [flush_noop g c] at h
     injection h with h1 h2
     exact Or.inl ⟨er, h1.symm, h2.symm⟩
   right
+  have pa := putArg_of_storable hsto hm
   have pfits : ∀ k, k < fi.end → (chunkAt fi.chunks k).length ≤ d.bpb.blockSize := by rw [← hcl]; exact pa.fits
   have peof : le32 fi.eof 0 ≤ fi.end * d.bpb.blockSize := by rw [← hcl]; exact pa.eofFits
   rw [readT_eq g c, readFrom_iff] at hread
